@@ -8,6 +8,12 @@ Correspondence streams (real code in-process vs native Lean driver):
   pranges same strings + planted pattern instances, against the positional pairing
           statement rangeSpec (Props.C10.range_pairing)
   wings   same strings, iter_enzymatic_cleave_sites_with_range_local (EXPASY_RULES_WINGS_SIZE)
+  ilocal  same strings (+ trypsin_exception), iter_enzymatic_cleave_sites_with_range_local against
+          its function-level model cleaveSitesWithRangeLocal (Model/WingsLocal.lean), output for
+          output incl. the position named in "Cannot extract matched pattern at position …"
+  glocal  same strings + random longer proteins, the static get_local_matched_range at EVERY
+          position 0..|s|+1 with the table's wings entry and a drawn one, against
+          getLocalMatchedRange (Props.C10.local_range_sound / local_range_first / …)
   pcleave the cleave cases (proteins <= 30) against the positional digest posDigest
           (Props.C10.cleave_spec_positional)
   cstop   strings with '*', find_all_cleave_and_stop_sites
@@ -77,6 +83,45 @@ def real_ranges_local(rec_cls, seq, rule):
             return 'reject:wings-zero'
         return 'crash:ValueError'
     return ','.join(f'{s}:{a}-{b}' for s, (a, b) in out)
+
+
+WINGS_PALETTE = [(0, 0), (0, 1), (1, 0), (1, 1), (1, 2), (2, 1), (2, 2), (3, 1), (4, 1), (4, 2),
+                 (3, 2), (2, 3), (4, 0), (0, 3), (5, 3), (3, 3), (1, 4)]
+
+
+def real_iter_local(rec_cls, seq, rule, exc):
+    """iter_enzymatic_cleave_sites_with_range_local, output for output (the raising site included)"""
+    import re as _re
+    from Bio.Seq import Seq
+    r = rec_cls(Seq(seq))
+    try:
+        out = list(r.iter_enzymatic_cleave_sites_with_range_local(rule, exc))
+    except ValueError as e:
+        m = _re.match(r'Cannot extract matched pattern at position (-?\d+) from ', str(e))
+        if m:
+            return f'reject:cannot-extract@{m.group(1)}'
+        if 'size being 0 for both wings' in str(e):
+            return 'reject:wings-zero'
+        return 'crash:ValueError'
+    except Exception as e:   # noqa
+        return f'crash:{type(e).__name__}'
+    return ','.join(f'{s}:{a}-{b}' for s, (a, b) in out)
+
+
+def real_get_local(rec_cls, pat, seq, wings):
+    """the static get_local_matched_range at every position 0..len+1"""
+    out = []
+    for site in range(len(seq) + 2):
+        try:
+            a, b = rec_cls.get_local_matched_range(seq=seq, site=site, p=pat, wings_size=wings,
+                                                   seq_len=len(seq))
+            out.append(f'{a}-{b}')
+        except ValueError as e:
+            out.append('reject:cannot-extract' if 'Cannot extract matched pattern' in str(e)
+                       else 'crash:ValueError')
+        except Exception as e:   # noqa
+            out.append(f'crash:{type(e).__name__}')
+    return ';'.join(out)
 
 
 def planted_strings(rule2_text: str, rng, per_alt: int):
@@ -475,6 +520,11 @@ def run(ctx: common.Ctx):
         for exc in excs:
             alpha = quotient_alphabet(rules[name], rules.get(exc) if exc else None)
             cases_s, cases_r, cases_i, cases_p, cases_w = [], [], [], [], []
+            cases_il, cases_gl = [], []
+            import re as _re
+            pat = _re.compile(rules[name])
+            tw = tuple(tabs['wings'][name])
+            wrng = ctx.rng('glocal-wings:' + name)
             cnt = 0
             done = False
 
@@ -486,7 +536,12 @@ def run(ctx: common.Ctx):
                 rr = real_ranges(AminoAcidSeqRecord, s, name, exc)
                 cases_r.append((f'C10\tranges\t{name}\t{e}\t{s}', rr, (name, exc, s)))
                 cases_p.append((f'C10\tpranges\t{name}\t{e}\t{s}', rr, (name, exc, s)))
+                cases_il.append((f'C10\tilocal\t{name}\t{e}\t{s}',
+                                 real_iter_local(AminoAcidSeqRecord, s, name, exc), (name, exc, s)))
                 if exc is None:
+                    for w in (tw, wrng.choice(WINGS_PALETTE)):
+                        cases_gl.append((f'C10\tglocal\t{name}\t{w[0]}\t{w[1]}\t{s}',
+                                         real_get_local(AminoAcidSeqRecord, pat, s, w), (name, w, s)))
                     rl = real_ranges_local(AminoAcidSeqRecord, s, name)
                     cases_w.append((f'C10\twings\t{name}\t{s}', rl, (name, None, s)))
                     if rl == 'reject:wings' and name not in wings_hit:
@@ -507,8 +562,29 @@ def run(ctx: common.Ctx):
             for s in planted_strings(tabs['rules2'][name], prng, ctx.n(12, 120)):
                 one(s)
                 total_planted += 1
+            if exc is None:
+                # random longer proteins (windows clipped at neither end, several sites per string)
+                lrng = ctx.rng('glocal-long:' + name)
+                for _ in range(ctx.n(40, 600)):
+                    s = gen_protein(lrng, rules[name], malformed=False, maxlen=40)
+                    if lrng.random() < 0.5:
+                        s = lrng.choice(planted_strings(tabs['rules2'][name], lrng, 1)) + s
+                    cases_il.append((f'C10\tilocal\t{name}\t-\t{s}',
+                                     real_iter_local(AminoAcidSeqRecord, s, name, None), (name, None, s)))
+                    for w in (tw, lrng.choice(WINGS_PALETTE)):
+                        cases_gl.append((f'C10\tglocal\t{name}\t{w[0]}\t{w[1]}\t{s}',
+                                         real_get_local(AminoAcidSeqRecord, pat, s, w), (name, w, s)))
             d = lambda o: {'rule': o[0], 'exception': o[1], 'seq': o[2]}
             nt = lambda o: o != ''
+            ctx.diff_stream('ilocal', cases_il, True, d, nt,
+                            'iter_enzymatic_cleave_sites_with_range_local differs from its function-level '
+                            'model (cleaveSitesWithRangeLocal: sites, ranges, raising site)')
+            ctx.diff_stream('glocal', cases_gl, True,
+                            lambda o: {'rule': o[0], 'wings_size': list(o[1]), 'seq': o[2],
+                                       'sites': f'0..{len(o[2]) + 1}'},
+                            lambda o: any(c.isdigit() for c in o),
+                            'get_local_matched_range differs from its model (getLocalMatchedRange: cursor '
+                            'schedule, window, returned range / ValueError)')
             ctx.diff_stream('sites', cases_s, True, d, nt,
                             'cleavage sites differ from the ExPASy rule (scan model)')
             ctx.diff_stream('issite', cases_i, True, d, nt,
